@@ -125,4 +125,7 @@ class BillingSufficiencyCriteria'''),
          new="            and (self.n_days_total >= MAX_BASELINE_LENGTH + 1\n            or MIN_BASELINE_LENGTH > self.n_days_total)"),
     dict(id="c10-benign-dead-method-edit", property="C10", kind="benign", file=S,
          old='''    def _check_hourly_consecutive_temperature_data(self):''', new='''    def _check_hourly_consecutive_temperature_data_unused(self):'''),
+    {'id': 'c10-day-counts-on-period-end', 'property': 'C10', 'kind': 'break', 'expect_rule': 'R10.2', 'expect_key': 'period-to-next-timestamp', 'file': 'opendsm/eemeter/common/data_processor_utilities.py', 'old': '    timedeltas = (index[1:] - index[:-1]).append(pd.TimedeltaIndex([pd.NaT]))', 'new': '    timedeltas = pd.TimedeltaIndex([pd.NaT]).append(index[1:] - index[:-1])'},
+    {'id': 'c10-day-counts-hours-per-day', 'property': 'C10', 'kind': 'break', 'expect_rule': 'R10.2', 'expect_key': 'period-to-next-timestamp', 'file': 'opendsm/eemeter/common/data_processor_utilities.py', 'old': '    timedelta_days = timedeltas.total_seconds() / (60 * 60 * 24)', 'new': '    timedelta_days = timedeltas.total_seconds() / (60 * 60 * 12)'},
+    {'id': 'c10-benign-day-counts-constant', 'property': 'C10', 'kind': 'benign', 'file': 'opendsm/eemeter/common/data_processor_utilities.py', 'old': '    timedelta_days = timedeltas.total_seconds() / (60 * 60 * 24)', 'new': '    seconds_per_day = 86400\n    timedelta_days = timedeltas.total_seconds() / seconds_per_day'},
 ]
